@@ -100,10 +100,11 @@ def run(chk, args):
     # ---------------------------------------------------------------- (1) exhaustive runs of the design
     mc = []
     if thorough:
-        mc += [("mc-PI-3x2", dict(maxtx=3, maxent=2, kinds='{"val", "del", "nix"}'), "MapAgrees", 8, 2400),
-               ("mc-PI-4x1", dict(maxtx=4, maxent=1), "MapAgrees", 4, 2400),
-               ("mc-PI-2x2-reads", dict(maxtx=2, maxent=2, kinds='{"val", "del", "nix", "fut", "past"}'), "IndexAgrees", 4, 2400),
-               ("mc-P-3x2", dict(layout="P", keyset="k3p", maxtx=3, maxent=2, kinds='{"val", "del", "nix"}', vals="{1}"), "IndexAgrees", 4, 2400),
+        mc += [("mc-PI-3x2", dict(maxtx=3, maxent=2, kinds='{"val", "del"}'), "MapAgrees", 8, 2400),
+               ("mc-PI-4x1", dict(maxtx=4, maxent=1, kinds='{"val", "del", "nix"}'), "MapAgrees", 4, 2400),
+               ("mc-PI-2x2-reads", dict(maxtx=2, maxent=2, kinds='{"val", "del", "nix", "fut"}'), "IndexAgrees", 4, 2400),
+               ("mc-P-3x2", dict(layout="P", keyset="k3p", maxtx=3, maxent=2, kinds='{"val", "del", "nix"}', vals="{1}"), "MapAgrees", 4, 2400),
+               ("mc-P-2x2-reads", dict(layout="P", keyset="k3p", maxtx=2, maxent=2, kinds='{"val", "del", "nix", "past"}', vals="{1}"), "IndexAgrees", 2, 2400),
                ("mc-PPI-2x2", dict(layout="PPI", keyset="k3", maxtx=2, maxent=2, kinds='{"val", "del", "nix"}'), "MapAgrees", 4, 2400)]
     else:
         mc += [("mc-PI-2x2", dict(maxtx=2, maxent=2, kinds='{"val", "del", "nix"}'), "IndexAgrees", 4, 500),
@@ -269,16 +270,16 @@ def report_rejected(chk, layout, lines, bad):
         hdr = json.loads(lines[start])
         kind = kinds[ev["x"] - 1]
         items = ev["r"].get("items") or []
-        if hdr["bulk"] > 1:
-            sig = SIG_BULK % kind
-        elif ev["q"]["op"] in ("between", "scanb") and any(it.get("hc", 1) <= 0 for it in items):
+        if ev["q"]["op"] in ("between", "scanb") and any(it.get("hc", 1) <= 0 for it in items):
             sig = "tbtree.lastUpdateBetween:%s:version-of-another-key-below-first-version" % ev["q"]["op"]
         elif item["why"] == "tombstone-not-marked-deleted":
             sig = "%s-index:tv:%s" % (kind, item["why"])
         elif hdr.get("compactions", 0) > 0 and item["why"] == "index-time-behind-observed-progress":
             sig = "store.CompactIndexes:concurrent-writers:index-time-regresses-while-WaitForIndexingUpto-reports-progress"
-        elif hdr.get("compactions", 0) > 0 and kind == "injective":
-            sig = "store.CompactIndexes:concurrent-writers:injective-index-built-from-regressed-source-index"
+        elif hdr.get("compactions", 0) > 0:
+            sig = "store.CompactIndexes:concurrent-writers:%s-index:content-differs-after-index-restart" % kind
+        elif hdr["bulk"] > 1:
+            sig = SIG_BULK % kind
         else:
             sig = "%s-index:tv:%s:%s" % (kind, ev["q"]["op"], item["why"])
         log = [json.loads(x) for x in lines[start:n] if '"ev":"Commit"' in x]
@@ -291,7 +292,7 @@ def selftest(chk, wd, binp, sims, seed):
     """one corrupted expected value must be reported; a trace with one corrupted read must be rejected"""
     layout, keyset, bulks, num = sims[0]
     p = os.path.join(wd, "sim-%s.json" % layout)
-    r = harness(binp, ["-mode", "rp", "-in", p, "-seed", str(seed), "-dir", os.path.join(wd, "d-self"), "-classes", "1"], env={"VERIF_SELFTEST": "1"})
+    r = harness(binp, ["-mode", "rp", "-in", p, "-seed", str(seed), "-dir", os.path.join(wd, "d-self"), "-classes", "1"], env={"VERIF_C04_CORRUPT": "1"})
     sigs = [v["sig"] for v in (r.get("violations") or [])]
     ok_rp = any(":get:wrong-tx" in s for s in sigs)
     tf = os.path.join(wd, "trace-P.ndjson")
